@@ -1779,7 +1779,7 @@ def randomizer_bin_und(R, alpha, seed=None):
         randomized network
     '''
     rng = get_rng(seed)
-    R = binarize(R, copy=True)  # binarize
+    R = binarize(R, copy=True).astype(float)  # binarize
     if not np.allclose(R, R.T):
         raise BCTParamError(
             'randomizer_bin_und only takes undirected matrices')
@@ -1787,7 +1787,7 @@ def randomizer_bin_und(R, alpha, seed=None):
     ax = len(R)
     nr_poss_edges = (np.dot(ax, ax) - ax) / 2  # find maximum possible edges
 
-    savediag = np.diag(R)
+    savediag = np.diag(R).copy()
     np.fill_diagonal(R, np.inf)  # replace diagonal with high value
 
     # if there are more edges than non-edges, invert the matrix to reduce
@@ -1798,7 +1798,7 @@ def randomizer_bin_und(R, alpha, seed=None):
     k = len(i)
     if k > nr_poss_edges / 2:
         swap = True
-        R = np.logical_not(R)
+        R = np.logical_not(R).astype(float)
         np.fill_diagonal(R, np.inf)
         i, j = np.where(np.triu(R, 1))
         k = len(i)
@@ -1886,6 +1886,7 @@ def randomizer_bin_und(R, alpha, seed=None):
 
     # restore diagonal
     np.fill_diagonal(R, 0)
-    R += savediag
+    R = np.array(R, dtype=int)
+    R[np.diag_indices(ax)] = savediag
 
-    return np.array(R, dtype=int)
+    return R
